@@ -74,4 +74,52 @@ theorem parseAll_spec (excl : List Bytes) (projs : List (List ProjField)) (user 
     simp only [List.flatten_cons, List.all_append]
     cases List.all fs (inFixed excl · res) <;> cases List.all rest.flatten (inFixed excl · res) <;> simp
 
+/-! ### histories of Parse calls with rejected expressions -/
+
+theorem parseLoop_eq (excl : List Bytes) : ∀ (fields : List ProjField) (parts : List FilterFn),
+    parseLoop excl fields parts =
+      match checkFields fields with
+      | .error e => .error e
+      | .ok () => .ok (parts ++ filterParts excl fields)
+  | [], parts => by simp [parseLoop, checkFields, filterParts]
+  | f :: fs, parts => by
+    rw [parseLoop, checkFields]
+    cases hc : checkField f with
+    | error e => rfl
+    | ok u =>
+      cases u
+      simp only
+      rw [parseLoop_eq excl fs]
+      cases checkFields fs with
+      | error e => rfl
+      | ok u =>
+        cases u
+        simp only [filterParts, List.filterMap_cons]
+        cases f.fixed <;> simp
+
+/-- an accepted expression installs its fixed lists in front of the caller's filter -/
+theorem parseCall_accepted (excl : List Bytes) (fields : List ProjField) (user : FilterFn)
+    (h : checkFields fields = .ok ()) : parseCall excl fields user = (parseInto excl fields user, none) := by
+  rw [parseCall, parseLoop_eq, h]
+  simp [parseInto]
+
+/-- a rejected expression leaves the filter exactly as it was -/
+theorem parseCall_rejected (excl : List Bytes) (fields : List ProjField) (user : FilterFn) (e : ProjErr)
+    (h : checkFields fields = .error e) : parseCall excl fields user = (user, some e) := by
+  rw [parseCall, parseLoop_eq, h]
+
+theorem parseHistory_eq (excl : List Bytes) : ∀ (projs : List (List ProjField)) (user : FilterFn),
+    parseHistory excl projs user = parseAll excl (acceptedOf projs) user
+  | [], user => rfl
+  | fs :: rest, user => by
+    rw [parseHistory]
+    cases hc : checkFields fs with
+    | error e =>
+      rw [parseCall_rejected excl fs user e hc, parseHistory_eq excl rest]
+      simp [acceptedOf, hc]
+    | ok u =>
+      cases u
+      rw [parseCall_accepted excl fs user hc, parseHistory_eq excl rest]
+      simp [acceptedOf, hc, parseAll]
+
 end C06
